@@ -355,6 +355,9 @@ def run(ctx):
         # every log level the command line offers: the report must not depend on it
         lvl = [[], ["-l", "i"], ["-l", "dd"], ["--log_level", "d"]][len(cli_jobs) // 2 % 4]
         cli_jobs.append(dict(op="solver_cli", path="inputs/%s.py" % st, text=repr(games), argv=["-f", "inputs/%s.py" % st, "-s"] + lvl, limit=60))
+        if len(cli_jobs) % 4 == 3:
+            # the input is a symbolic link to a file of another name: the report is still named after the file that was given
+            cli_jobs[-1]["link_to"] = "batch_2024_07.py"
         cli_jobs.append(dict(op="solver_cli", path="inputs/%s.py" % st, text=repr(games), argv=["--file", "inputs/%s.py" % st], limit=60))
 
     res = impl.run_cases(jobs + rjobs + [k2] + cli_jobs, limit=60, tag="c16")
